@@ -168,7 +168,10 @@ def rule_r2(ctx):
                     )
                 if e.kind == "nest-begin":
                     what = f"{kind}|nest|{e.path}"
-                    if not e.path.startswith("reversed("):
+                    rev = e.path.startswith("reversed(")
+                    # effective evaluation order of the per-element holes
+                    source_order = (e.extra.get("hole_first") and not rev) or (not e.extra.get("hole_first") and rev)
+                    if not source_order:
                         rr.fail(
                             f"C07-R2|{kind}|nest-order|{norm_path(e.path)}",
                             f"{ci.name} ({e.site}): wrappers are nested over {e.path} in source order, so the LAST one is outermost: evaluated bottom-up and applied top-down (Python: evaluated top-down, applied bottom-up)",
@@ -177,7 +180,7 @@ def rule_r2(ctx):
                     else:
                         rr.ok(what, sample={"rule": "C07-R2", "statement": kind, "nesting": e.path, "verdict": "first decorator outermost"})
                 for over in e.mult:
-                    if over.startswith("reversed(") and e.kind in ("X", "raw") and not any(x.kind == "nest-begin" and x.pos < e.pos for x in evs if x.path == over):
+                    if over.startswith("reversed(") and e.kind in ("X", "raw") and not any(x.kind == "nest-begin" and x.pos < e.pos and x.path == over for x in evs):
                         rr.fail(
                             f"C07-R2|{kind}|{e.path}|reversed",
                             f"{ci.name} ({e.site}): {e.path} is emitted in reverse source order ({over})",
